@@ -102,3 +102,25 @@ func mutwriteMain(args []string) {
 		panic(err)
 	}
 }
+
+func init() { register("corpusstat", corpusstatMain) }
+
+// corpusstat: debug helper, counts corpus items with / without an own format.
+func corpusstatMain(args []string) {
+	with, without := 0, 0
+	byF := map[string]int{}
+	for _, it := range corpus() {
+		if len(it.Formats) > 0 {
+			with++
+			for _, f := range it.Formats {
+				byF[f]++
+			}
+		} else {
+			without++
+			if len(args) > 0 {
+				fmt.Println("no format:", it.Path)
+			}
+		}
+	}
+	fmt.Println("items with own format", with, "without", without, "formats with samples", len(byF), "of", len(allFormats()))
+}
